@@ -24,3 +24,18 @@ Definition header (a : args) (doc0 : option str) (nofree_expected : bool) (fl0 :
   match fl103 with _ :: _ => Err ValueError | [] =>
   OK (v_block_type, v_annotations, v_nested) end).
 End Header.
+Module EncodeHeader.
+Definition header (ty : option function) (varnames : list str) (freevars_empty cellvars_empty future_annotations nested : bool)
+  : res (Z * Z * Z * list flag) :=
+  let fl0 := @nil flag in
+  let fl1 := match ty with Some f => (match fn_type f with Some t => flag_add (fntype_flag t) (flags_union fl0 PCD.Gen.Src.FN_FLAGS) | None => flags_union fl0 PCD.Gen.Src.FN_FLAGS end) | None => fl0 end in
+  bind (match ty with
+    | Some f => let '(ac, pc, kc, vn, fl) := PCD.Gen.SrcArgs.Args.args_to_input (fn_args f) fl1 in
+        if list_eqb str_eqb (take (zlen vn) varnames) vn then OK (ac, pc, kc, fl) else Err AssertionError
+    | None => OK (0, 0, 0, fl1)
+    end) (fun '(argcount, posonly, kwonly, fl2) =>
+  let fl3 := if (freevars_empty && cellvars_empty) then flag_add NOFREE fl2 else fl2 in
+  let fl4 := if future_annotations then flag_add F_annotations fl3 else fl3 in
+  let fl5 := if nested then flag_add NESTED fl4 else fl4 in
+  OK (argcount, posonly, kwonly, fl5)).
+End EncodeHeader.
